@@ -109,15 +109,29 @@ def defaults_and_untyped(ctx):
         members = []
         for i in range(rng.randint(2, 5)):
             members.append({"name": "e%d" % i, "type": rng.choice(["string", "int"]), "nillable": rng.random() < 0.5,
-                            "min": rng.choice([0, 1, 1]), "default": rng.choice([None, None, "7"])})
-        decl = "".join('<xsd:element name="%s" type="xsd:%s"%s%s%s/>' % (
+                            "min": rng.choice([0, 1, 1]), "default": rng.choice([None, None, "7"]),
+                            "many": rng.random() < 0.35})
+            if members[-1]["many"]:
+                members[-1]["default"] = None
+        decl = "".join('<xsd:element name="%s" type="xsd:%s"%s%s%s%s/>' % (
             m["name"], m["type"], ' nillable="true"' if m["nillable"] else "", ' minOccurs="0"' if m["min"] == 0 else "",
-            ' default="%s"' % m["default"] if m["default"] else "") for m in members)
+            ' default="%s"' % m["default"] if m["default"] else "", ' maxOccurs="unbounded"' if m["many"] else "")
+            for m in members)
         schema = '<xsd:element name="f"><xsd:complexType><xsd:sequence>%s</xsd:sequence></xsd:complexType></xsd:element>' % decl
         client = wsdlkit.client(wsdlkit.wsdl_doc(schema, "f", None), nosend=True)
         for _c in range(3):
             kw, exp = {}, []
             for m in members:
+                if m["many"]:
+                    # a list, items may be None: each item is written by the rule of a single value
+                    items = [rng.choice([None, "x" if m["type"] == "string" else 12]) for _k in range(rng.randint(0, 3))]
+                    kw[m["name"]] = items
+                    for v in items:
+                        if v is not None:
+                            exp.append([m["name"], str(v), False])
+                        elif m["min"] != 0:
+                            exp.append([m["name"], "", m["nillable"]])
+                    continue
                 v = rng.choice([None, None, "x" if m["type"] == "string" else 12])
                 if rng.random() < 0.8:
                     kw[m["name"]] = v
@@ -225,6 +239,16 @@ def witness(ctx, k):
     kind = (k.get("witness") or {}).get("kind")
     if kind == "reserved-attribute-names":
         return reserved_attr_names() is not None
+    if kind == "none-in-top-level-list":
+        schema = ('<xsd:element name="f"><xsd:complexType><xsd:sequence><xsd:element name="items" type="xsd:string" '
+                  'minOccurs="0" maxOccurs="unbounded"/></xsd:sequence></xsd:complexType></xsd:element>')
+        c = wsdlkit.client(wsdlkit.wsdl_doc(schema, "f", None), nosend=True)
+        try:
+            env = wsdlkit.envelope_bytes(c.service.f(items=["1", None, "2"]))
+            froot = xmlread.find1(xmlread.find1(xmlread.parse(env), "Body"), "f")
+            return [ch.get("text") for ch in froot["children"]] != ["1", "2"]
+        except Exception:
+            return True
     if kind not in ("derived-in-array", "array-item-lexical"):
         return None
     w = wsdlkit.wsdl_doc(ENC_SCHEMA, style="rpc", use="encoded",
